@@ -124,6 +124,17 @@ CHECKS = {
     {"pkg": "./stage", "test": "TestC02R", "shards": {"quick": 16, "thorough": 16}},
   ],
  },
+ "C08": {
+  "engine": "E-ENV",
+  "rule": "deviation-bounded enumeration of request failures on the end-to-end rig (real sender incl. http client, real receiver incl. http server and stage, in-memory network, virtual time): every plan of <= d deviations over the failure menu of every data and data-recovery request is run to completion; the wire trace (requests, answers, parts the gate keeper accepted) is checked against the remainder rule and the acknowledgement rule; distinct = distinct plans",
+  "level": "Every failure position of every payload and every failure of the recovery request itself, up to the deviation bound, is executed on the real sender and receiver; the oracle is evaluated on the recorded wire trace of each run.",
+  "note": "Bounds: see coverage.parts[].bound. The goroutine schedule of each run is the Go runtime's (one P, virtual time): schedules are not enumerated by this part.",
+  "technique": "exhaustive deviation-bounded enumeration of fault plans on the implementation (end-to-end, virtual time), trace oracle",
+  "assumptions": ["one schedule per plan (single P, idle-only clock advance)", "faults are injected at the client.Conf seams and at the gate keeper"],
+  "parts": [
+    {"pkg": "./main", "test": "TestC08Env", "shards": {"quick": 16, "thorough": 16}},
+  ],
+ },
 }
 
 NOT_APPLICABLE = {}
